@@ -252,6 +252,8 @@ def Svc.exec (s : Svc) (es : List Event) : Svc := es.foldl Svc.step s
 /-! ### several actors and `run(*actors)` -/
 
 structure RunRec where
+  actors : List Nat              -- ghost: the actors given to `run` (indices that exist)
+  pending : List Nat             -- actors whose `wait()` task has not taken its first step yet
   waiters : List (Nat × Nat)     -- (actor index, index of its `wait()` call)
   returned : Option Int
 deriving DecidableEq, Repr, Inhabited
@@ -265,17 +267,16 @@ deriving Repr
 inductive SysEvent
   | svc (a : Nat) (e : Event)
   | advance (d : Nat)
-  | runCall (actors : List Nat)
-  | runReturn (r : Nat)
+  | runCall (actors : List Nat)     -- first step of `run(*actors)`: start those that are not running, create the wait() tasks
+  | runWait (r : Nat)               -- first step of the next `wait()` task of run `r`
+  | runReturn (r : Nat)             -- `run` number `r` returns (enabled when all its wait() tasks have finished)
 deriving Repr
 
 def Sys.init (m : Mode) (lims : List (Option Nat)) : Sys :=
   { now := 0, svcs := lims.map (Svc.init m), runs := [] }
 
-/-- `run()` for one actor: start it unless it is running, then create its `wait()` task. -/
-def runOne (s : Svc) : Svc × Nat :=
-  let s1 := if s.isRunning then s else s.start
-  (s1.call .wait, s1.callers.length)
+/-- `run()` for one actor: `if actor.is_running: skip else actor.start()`. -/
+def startIfIdle (s : Svc) : Svc := if s.isRunning then s else s.start
 
 def callerFinished (s : Svc) (c : Nat) : Bool :=
   match s.callers[c]? with
@@ -285,14 +286,28 @@ def callerFinished (s : Svc) (c : Nat) : Bool :=
 def waiterFinished (svcs : List Svc) (w : Nat × Nat) : Bool :=
   match svcs[w.1]? with
   | some s => callerFinished s w.2
-  | none => true     -- `run` was given an index that is not an actor: nothing to wait for
+  | none => false
 
 def Sys.runCall (y : Sys) (actors : List Nat) : Sys :=
-  let (svcs, ws) := actors.foldl (fun (acc : List Svc × List (Nat × Nat)) a =>
-      match acc.1[a]? with
-      | some s => let (s', c) := runOne s; (acc.1.set a s', acc.2 ++ [(a, c)])
-      | none => acc) (y.svcs, [])
-  { y with svcs := svcs, runs := y.runs ++ [{ waiters := ws, returned := none }] }
+  let valid := actors.filter (fun a => a < y.svcs.length)
+  { y with svcs := y.svcs.mapIdx (fun i s => if valid.contains i then startIfIdle s else s),
+           runs := y.runs ++ [{ actors := valid, pending := valid, waiters := [], returned := none }] }
+
+def Sys.runWait (y : Sys) (r : Nat) : Sys :=
+  match y.runs[r]? with
+  | some rc =>
+    (match rc.pending with
+     | [] => y
+     | a :: rest =>
+       match y.svcs[a]? with
+       | some s =>
+         { y with svcs := y.svcs.set a (s.call .wait),
+                  runs := y.runs.set r { rc with pending := rest, waiters := rc.waiters ++ [(a, s.callers.length)] } }
+       | none => y)     -- unreachable: `pending` only holds indices of services
+  | none => y
+
+def runDone (svcs : List Svc) (rc : RunRec) : Bool :=
+  rc.pending.isEmpty && rc.waiters.all (waiterFinished svcs)
 
 def Sys.step (y : Sys) (e : SysEvent) : Sys :=
   match e with
@@ -304,11 +319,12 @@ def Sys.step (y : Sys) (e : SysEvent) : Sys :=
             | none => y)
   | .advance d => { y with now := y.now + d, svcs := y.svcs.map (fun s => Svc.step s (.advance d)) }
   | .runCall actors => y.runCall actors
+  | .runWait r => y.runWait r
   | .runReturn r =>
     match y.runs[r]? with
-    | some rec =>
-      if rec.returned.isNone && rec.waiters.all (waiterFinished y.svcs)
-      then { y with runs := y.runs.set r { rec with returned := some y.now } }
+    | some rc =>
+      if rc.returned.isNone && runDone y.svcs rc
+      then { y with runs := y.runs.set r { rc with returned := some y.now } }
       else y
     | none => y
 
